@@ -304,6 +304,8 @@ func l3CodeSep(c *l3Collector) {
 		codes map[string][]byte
 		// which candidate is correct for legacy / v0 ("" = none can be valid)
 		legacy, v0 string
+		// the signature is consumed by a 1-of-1 CHECKMULTISIG (dummy element first)
+		multi bool
 	}
 	strip := func(s []byte) []byte { // remove all CODESEPARATOR opcodes (scripts here have no pushes containing 0xab)
 		var o []byte
@@ -340,6 +342,22 @@ func l3CodeSep(c *l3Collector) {
 		mk("CS K CS CHK CS", s5, len(K)+2),
 		mk("1 IF CS ENDIF K CHK CS (executed in branch)", s6, 3),
 	}
+	// the same positions in front of / inside / behind a 1-of-1 CHECKMULTISIG
+	{
+		one := []byte{refscript.OP_1}
+		CMS := []byte{refscript.OP_CHECKMULTISIG}
+		mm := func(name string, script []byte, afterLast int) {
+			v := mk(name, script, afterLast)
+			v.multi = true
+			vars = append(vars, v)
+		}
+		mm("CS 1 K 1 CMS", cat(CS, one, K, one, CMS), 1)
+		mm("1 CS K 1 CMS", cat(one, CS, K, one, CMS), 2)
+		mm("1 K CS 1 CMS", cat(one, K, CS, one, CMS), 1+len(K)+1)
+		mm("1 K 1 CMS CS", cat(one, K, one, CMS, CS), 0)
+		mm("1 IF CS ENDIF 1 K 1 CMS (executed in branch)", cat([]byte{refscript.OP_1, refscript.OP_IF}, CS, []byte{refscript.OP_ENDIF}, one, K, one, CMS), 3)
+		mm("CS 1 K CS 1 CMS CS", cat(CS, one, K, CS, one, CMS, CS), 1+1+len(K)+1)
+	}
 	for _, v := range vars {
 		for _, wk := range ecdsaWraps {
 			for _, not := range []bool{false, true} {
@@ -354,7 +372,11 @@ func l3CodeSep(c *l3Collector) {
 						code = cat(code, []byte{refscript.OP_NOT})
 					}
 					x := signECDSA(keyA, env.digest(wk.sv, code, 0x01))
-					pk, sig, wit := wrap(wk, script, [][]byte{append(x.der(), 0x01)})
+					items := [][]byte{append(x.der(), 0x01)}
+					if v.multi {
+						items = [][]byte{{}, items[0]}
+					}
+					pk, sig, wit := wrap(wk, script, items)
 					c.add("L3/codesep/"+wk.name, fmt.Sprintf("%s not=%v signed-over=%s", v.name, not, cname), env.spend(pk, sig, wit), allFlagSets)
 				}
 			}
